@@ -1,17 +1,18 @@
 ----------------------------- MODULE HooksJudge -----------------------------
-(* Code -> spec: (hook, operation) matrices observed on the real dispatchers are judged against Hooks!Applied. *)
+(* Code -> spec: (hook, operation) matrices observed on the real dispatchers at every generation of a history are judged       *)
+(* against Hooks!AppliedAt.                                                                                                    *)
 EXTENDS Hooks, IOUtils
-Obs == JsonDeserialize(IOEnv.OBS_FILE)   \* sequence of [events, obs : matrix of 0/1, one row per registration, err]
+Obs == JsonDeserialize(IOEnv.OBS_FILE)   \* sequence of [events, order, obs : one 0/1 matrix (row per registration so far) per generation, err]
 VARIABLE i
 JInit == /\ i \in 1..Len(Obs) /\ hist = Obs[i].events
-         /\ plan = << >> /\ registry = [s \in Scopes |-> << >>] /\ filterOf = << >>
+         /\ plan = Plan(<< >>, "AB") /\ registry = [s \in Scopes |-> << >>] /\ filterOf = << >>
 JNext == UNCHANGED <<i, vars>>
 JSpec == JInit /\ [][JNext]_<<i, vars>>
 (* err = number of the event whose call raised (0: none); the spec says every call of an enumerated history succeeds *)
-RegsUpTo(k) == Cardinality({j \in RegPositions(hist) : j <= k})
 Report == IF Obs[i].err # 0
-          THEN PrintT(<<"DISAGREE", i, IF RegsUpTo(Obs[i].err) = 0 THEN 1 ELSE RegsUpTo(Obs[i].err), 0, "raised">>)
-          ELSE \A h \in 1..NRegs(hist) : \A o \in 1..NOps :
-                 IF Obs[i].obs[h][o] = Bit(Applied(hist, h, o)) THEN TRUE
-                 ELSE PrintT(<<"DISAGREE", i, h, o, IF Obs[i].obs[h][o] = 1 THEN "spurious" ELSE "missing">>)
+          THEN PrintT(<<"DISAGREE", i, 0, IF NRegsUpTo(hist, Obs[i].err) = 0 THEN 1 ELSE NRegsUpTo(hist, Obs[i].err), 0, "raised">>)
+          ELSE LET gs == GenSeq(hist) IN
+               \A j \in 1..Len(gs) : \A h \in 1..NRegsUpTo(hist, gs[j][1]) : \A o \in 1..NOps :
+                 IF Obs[i].obs[j][h][o] = Bit(Used(Obs[i].order, o) /\ AppliedAt(hist, gs[j][1], gs[j][2], h, o)) THEN TRUE
+                 ELSE PrintT(<<"DISAGREE", i, j, h, o, IF Obs[i].obs[j][h][o] = 1 THEN "spurious" ELSE "missing">>)
 =============================================================================
